@@ -6,11 +6,23 @@ use std::num::NonZeroUsize;
 #[derive(Default)]
 pub struct C19 {
     bm: Option<BitMap>,
+    /// concurrent case (`case <n> conc cap <c> sched=<…>`): calls are queued and run by `go` in a child process under
+    /// the deterministic scheduler
+    conc: Option<(usize, String)>,
+    queued: Vec<String>,
 }
 
 impl Interp for C19 {
     fn case(&mut self, a: &[&str]) -> String {
-        // case <n> cap <c>
+        // case <n> cap <c>   |   case <n> conc cap <c> sched=<spec>
+        self.conc = None;
+        self.queued.clear();
+        if a[1] == "conc" {
+            let cap: usize = p(a[3]);
+            let sched = a.iter().find_map(|t| t.strip_prefix("sched=")).unwrap_or("random:1:64").to_string();
+            self.conc = Some((cap, sched));
+            return "ok".into();
+        }
         let cap: usize = p(a[2]);
         self.bm = Some(BitMap::new(NonZeroUsize::new(cap).unwrap()));
         "ok".into()
@@ -18,6 +30,32 @@ impl Interp for C19 {
     fn op(&mut self, op: &str, a: &[&str]) -> String {
         match op {
             "log2" => log2(p::<u64>(a[0])).to_string(),
+            "t" if self.conc.is_some() => {
+                self.queued.push(format!("{}:{}:{}", a[0], a[1], a[2]));
+                "queued".into()
+            }
+            "go" if self.conc.is_some() => {
+                let (cap, sched) = self.conc.clone().unwrap();
+                let out = std::process::Command::new(std::env::current_exe().unwrap())
+                    .arg("--bm-one")
+                    .arg(cap.to_string())
+                    .arg(sched)
+                    .arg("20000")
+                    .args(&self.queued)
+                    .stderr(std::process::Stdio::null())
+                    .output();
+                match out {
+                    Ok(o) => {
+                        let t = String::from_utf8_lossy(&o.stdout).trim().to_string();
+                        if t.is_empty() {
+                            "events=- final=- status=crash".into()
+                        } else {
+                            t
+                        }
+                    }
+                    Err(_) => "events=- final=- status=crash".into(),
+                }
+            }
             _ => {
                 let bm = self.bm.as_ref().unwrap();
                 let s: u64 = p(a[0]);
